@@ -691,6 +691,10 @@ class BaseProperty(base.BaseObject):
         # Catch unmerge-able values at this point to avoid
         # failing Section tree merges which cannot easily be rolled back.
         new_value = self._convert_value_input(source.values)
+        if self._dtype is not None and self._dtype.endswith("-tuple"):
+            # Stored tuple values are lists; bring them into the form the check expects.
+            t_count = int(self._dtype.split("-")[0])
+            new_value = odml_tuple_import(t_count, new_value)
         if not self._validate_values(new_value):
             raise ValueError("odml.Property.merge: passed value(s) cannot "
                              "be converted to data type '%s'!" % self._dtype)
